@@ -35,6 +35,7 @@ let () =
   let run = match family with
     | "session" -> run_session_line
     | "frame" -> run_frame_line
+    | "timer" -> run_timer_line
     | _ -> run_codec in
   try
     while true do
